@@ -71,6 +71,7 @@ func bp(b bool) *bool { return &b }
 
 func runC14(c *Ctx) {
 	r := c.R
+	c14SourceValidators(c)
 	n := c.N(60, 2000)
 	// mappings around the 65,535-byte limit: accepted ones must validate and round-trip,
 	// over-limit ones must be rejected (not wrapped)
